@@ -65,7 +65,7 @@ noncomputable def Cov.kGradE (e : ℝ) : Cov ℝ → List ℝ → List ℝ → L
   | .pow l p ad, x, y =>
     let xs := select ad x; let ys := select ad y
     let bk := l.k xs ys
-    expand ad y.length ((l.kGradE e xs ys).map fun bg => p * rpow bk (p - 1) * bg)
+    expand ad y.length ((l.kGradE e xs ys).map fun bg => if 0 < bk then p * rpow bk (p - 1) * bg else 0)
 
 /-- The model of `cov.k_grad` is the recursion with guard `1e-12`. -/
 theorem kGrad_eq_kGradE (c : Cov ℝ) (x y : List ℝ) : c.kGrad x y = c.kGradE distEps x y := by
@@ -393,7 +393,7 @@ theorem kGradE_zero_line (c : Cov ℝ) (x y u : List ℝ) (hxy : x.length = y.le
     have hw := select_length_of_indices ad y hi
     have hs := select_length_eq ad x y hxy
     have hus := select_length_eq ad u y hu
-    simp only [Cov.k, Cov.kGradE, rpow_real]
+    simp only [Cov.k, Cov.kGradE, rpow_real, hreg.2, if_true]
     apply hasDerivAt_node ad (fun xs ys => l.k xs ys ^ p) _ x y u hu
     have hb : l.k (select ad x) (lineAt (select ad y) (select ad u) 0) ≠ 0 := by
       rw [lineAt_zero _ _ hus]; exact ne_of_gt hreg.2
